@@ -175,7 +175,7 @@ Lemma sparse_advance_timeline : forall p gs g w d p' o r G,
   QSg true w d p gs -> CIs w p g -> Forall (fun c => cs_last c < I32MAX) (ps_status p) ->
   Forall (fun c => cs_last c + 1 < I32MAX) (ps_status p) -> TI p gs G ->
   exists gs', QSg true w d p' gs' /\ TI p' gs' (replay_hist G (o_requests o)) /\
-    hist_step d (ps_pending p) (local_handles p) gs gs' /\ ps_kinds p' = ps_kinds p /\ spec_step p gs o p' /\
+    hist_step d (ps_pending p) (local_handles p) gs gs' /\ ps_kinds p' = ps_kinds p /\ spec_step p gs' o p' /\
     Forall (truthful_lt (s_current (ps_sync p')) gs') (adv_frames G (o_requests o)).
 Proof.
   intros p gs g w d p' o r G E HQS (HJS & HXs) Hbnd _ HTI.
@@ -235,8 +235,10 @@ Proof.
   { intros cf Ecf HLcf _. exact (sparse_rollback_ti p1 gs g1 w d o1 cf G HQS1 HJS1 HSX1 HS1 Ecf HLcf Hbnd1 HTI1). }
   exists gs'. split; [exact HQS'|]. split; [rewrite Ho, replay_hist_app, Hrep1; exact HTI'|]. split; [rewrite <- Hpe1, <- Hlh1; exact Hh'|]. split; [congruence|].
   split; [|rewrite Ho, adv_frames_app, Hadv1, Hrep1; exact HTR'].
-  apply (spec_sent_step predict predict_idem p gs cf); [exact Hsok| |congruence| |].
+  apply (spec_sent_step predict predict_idem p gs gs' cf); [exact Hsok| | |congruence| |].
   - apply (cf_bound predict predict_idem _ w d p gs cf HQS). unfold confirmed_frame in *. rewrite <- Hst1. exact Ecf.
+  - apply (hist_step_grows_gs _ _ _ _ _ Hh').
+    destruct (qs_n _ _ _ _ HQS') as (_ & _ & A & _). destruct (qs_n _ _ _ _ HQS) as (_ & _ & B & _). congruence.
   - rewrite Hsent, Hos1. unfold spec_sent. rewrite Hss1, Hns1. reflexivity.
   - rewrite Hns'. unfold next_spec_after. rewrite Hss1, Hns1. reflexivity.
 Qed.
